@@ -121,6 +121,11 @@ namespace ip {
 
 		if (m_queue.empty()) return;
 
+		// this may be a stale completion of a wait that was already due when
+		// the queue was cancelled and refilled. The front of the queue is not
+		// due yet, and the timer has been re-armed for it
+		if (m_queue.front().completion_time > chrono::high_resolution_clock::now()) return;
+
 		typename queue_t::value_type v = std::move(m_queue.front());
 		m_queue.erase(m_queue.begin());
 
